@@ -113,9 +113,12 @@ bool Loopback::matches_response(const uint8_t* ptr, uint32_t total_sz) const {
     // If there's an inner_pdu, check if the inner pdu matches.
     // Otherwise, just check this loopback family.
     
-    return inner_pdu() ? 
-           inner_pdu()->matches_response(ptr + sizeof(family_), total_sz - sizeof(family_)) :
-           (family_ == *reinterpret_cast<const uint32_t*>(ptr));
+    if (inner_pdu()) {
+        return inner_pdu()->matches_response(ptr + sizeof(family_), total_sz - sizeof(family_));
+    }
+    uint32_t family;
+    std::memcpy(&family, ptr, sizeof(family));
+    return family_ == family;
 }
 
 #ifdef BSD
